@@ -3,7 +3,9 @@ C07 — APDU fixed headers carry every field of all eight PDU types faithfully.
 
 Correspondence streams (model = lean/Drv/C07.lean over Model.Apci):
   hdr-<t>     : the FULL cross product of flag bits x code points per PDU type with
-                octet fields in {0,1,127,128,255}; per header four operations:
+                octet fields in {0,1,127,128,255} (quick thins only the four octet fields of
+                segmented confirmed requests to a strength-3 orthogonal array; thorough runs
+                all 332 800); per header four operations:
                   enc   raw APCI.encode                        (header octets)
                   aenc  typed class -> APDU -> PDU (+ payload) (observation point)
                   dec   raw APCI.decode of header+payload      (fields, what is left in
@@ -39,8 +41,10 @@ LEAN_TARGETS = ["BacVerif.Props.C07", "drv_c07"]
 LEANCHECKER = ["BacVerif.Props.C07"]
 LEVEL = "proof"
 RULE = ("full cross product per PDU type of flag bits x max-segments codes 0..7 x max-response codes "
-        "0..15 x octet fields in {0,1,127,128,255} (332 800 confirmed-request headers, 1 300 complex "
-        "acks, 500 segment acks, ...), each through enc/aenc/dec/adec with a payload; loose headers; "
+        "0..15 x octet fields in {0,1,127,128,255} (thorough: 332 800 confirmed-request headers, 1 300 "
+        "complex acks, 500 segment acks, ...; quick thins only the (inv,svc,seq,win) octets of segmented "
+        "confirmed requests to a strength-3 orthogonal array: 76 800 headers), each through "
+        "enc/aenc/dec/adec with a payload; loose headers; "
         "all octet strings of length <=2 (quick) / <=3 (thorough) exhaustively, random longer ones, "
         "all strict prefixes and single-octet substitutions of valid frames; capabilities None, "
         "0..2000 and large through the table encoders, codes 0..20 through the decoders. "
@@ -324,7 +328,10 @@ def oracle(ctx, case, a):
             canon[i] &= m
         if bytes(canon) != exp:
             ctx.fail("field-bits", case, "fields %r are not the bits of %s" % (h, raw[:n].hex()), op=op)
-        # reparse: what decodes, re-encodes and decodes to the same
+        # reparse: what decodes, re-encodes and decodes to the same (frames that ARE the
+        # canonical encoding of a generated header get this from the enc/aenc cases)
+        if case.get("canon"):
+            return
         re_ = impl({"op": "enc", "h": h})
         if re_.get("r") != "ok":
             ctx.fail("reparse", case, "decoded header does not re-encode: %r" % (re_,), op=op)
@@ -408,16 +415,23 @@ def oracle_registry(ctx):
 
 # ---------------------------------------------------------------- generators
 
-def headers_of_type(t):
-    """the full cross product for one PDU type"""
+def headers_of_type(t, full=True):
+    """the full cross product for one PDU type.  full=False (quick tier) thins ONLY the
+    four octet fields of segmented confirmed requests to a strength-3 orthogonal array
+    (every (inv, svc, seq) triple, window = Latin-square function of the three, so every
+    pair with the window occurs too); flags x code points stay a full product."""
     B = [False, True]
     O = OCTETS
     if t == 0:
         for seg, mor, sa in itertools.product(B, B, B):
             for ms, mr in itertools.product(range(8), range(16)):
-                for inv, svc in itertools.product(O, O):
-                    if seg:
+                for (i, inv), (j, svc) in itertools.product(enumerate(O), enumerate(O)):
+                    if seg and full:
                         for sq, wn in itertools.product(O, O):
+                            yield H(0, seg=seg, mor=mor, sa=sa, msegs=ms, mresp=mr, inv=inv, svc=svc, seq=sq, win=wn)
+                    elif seg:
+                        for k, sq in enumerate(O):
+                            wn = O[(i + j + k + ms + mr) % 5]
                             yield H(0, seg=seg, mor=mor, sa=sa, msegs=ms, mresp=mr, inv=inv, svc=svc, seq=sq, win=wn)
                     else:
                         yield H(0, seg=seg, mor=mor, sa=sa, msegs=ms, mresp=mr, inv=inv, svc=svc)
@@ -465,8 +479,8 @@ def header_cases(headers, rng):
         frame = (expected_layout(h) + bytes.fromhex(data)).hex()
         cases.append({"op": "enc", "h": h, "tail": data})
         cases.append({"op": "aenc", "h": h, "data": data})
-        cases.append({"op": "dec", "hex": frame})
-        cases.append({"op": "adec", "hex": frame})
+        cases.append({"op": "dec", "hex": frame, "canon": 1})
+        cases.append({"op": "adec", "hex": frame, "canon": 1})
     return cases
 
 
@@ -602,7 +616,7 @@ def run_cases(ctx, stream, cases, oracle_on=True):
         for c, r in zip(cases, a):
             oracle(ctx, c, r)
     if ctx.model_ok:
-        wire = [{k: v for k, v in c.items() if k not in ("tail", "loose")} for c in cases]
+        wire = [{k: v for k, v in c.items() if k not in ("tail", "loose", "canon")} for c in cases]
         b = core.Driver("drv_c07").ask(wire)
         ctx.compare_stream(stream, cases, a, b, sig=sig)
     else:
@@ -616,7 +630,7 @@ def run_cases(ctx, stream, cases, oracle_on=True):
 def shard_headers(ctx, spec):
     t, idx, nshards = spec
     rng = ctx.sub_rng("c07-hdr-%d-%d" % (t, idx))
-    hs = [h for i, h in enumerate(headers_of_type(t)) if i % nshards == idx]
+    hs = [h for i, h in enumerate(headers_of_type(t, full=not ctx.quick)) if i % nshards == idx]
     run_cases(ctx, "hdr-%d" % t, header_cases(hs, rng))
 
 
@@ -668,7 +682,10 @@ def run(ctx):
     core.run_shards(ctx, "harness.c07", "shard_random", [(i, per) for i in range(nrand)])
     ctx.exhaustive = False
     ctx.extra["exhaustive_octet_string_length"] = 2 if ctx.quick else 3
-    ctx.extra["header_cross_product"] = "full (flags x codes x {0,1,127,128,255}) for all eight types"
+    ctx.extra["header_cross_product"] = (
+        "full (flags x codes x {0,1,127,128,255}) for all eight types" if not ctx.quick else
+        "full flags x codes for all eight types; octet fields {0,1,127,128,255} full except segmented "
+        "confirmed requests: strength-3 orthogonal array over (inv, svc, seq, win) (thorough: full)")
     ctx.extra["capability_sweep"] = "None, 0..2000, large"
 
 
